@@ -36,26 +36,32 @@ def inputsValue (e : Env) (pool : List Tx) (earlier : List Nat) : List Inp → O
     | some a, some b => some (a + b)
     | _, _ => none
 
-/-- Connect the selected transactions in order.  `spent` = outpoints consumed so far, `earlier` =
-pool indices already connected.  Result: the sum of the real fees (inputs − outputs). -/
-def connect (e : Env) (pool : List Tx) : List Nat → List OutPoint → List Nat → Option Nat
-  | [], _, _ => some 0
-  | j :: rest, spent, earlier =>
-    match pool[j]? with
-    | none => none
-    | some t =>
-      let ops := t.ins.map (·.op)
-      if ops.any (fun op => spent.contains op) then none
-      else if !ops.Nodup then none
-      else
-        match inputsValue e pool earlier t.ins with
-        | none => none
-        | some total =>
-          if total < sumOuts t then none
-          else
-            match connect e pool rest (ops ++ spent) (earlier ++ [j]) with
-            | some f => some (f + (total - sumOuts t))
-            | none => none
+/-- Outpoints consumed by the transactions `done` (pool indices). -/
+def spentOps (pool : List Tx) (done : List Nat) : List OutPoint :=
+  (txsOf pool done).flatMap (fun t => t.ins.map (·.op))
+
+/-- Connect one more transaction `j` after the transactions `st.1`; `st.2` collects the real fee
+(inputs − outputs) of each connected transaction.  Fails on an unknown index, a double spend (within
+the transaction or against an earlier one), a missing / immature input, or outputs above inputs. -/
+def connectStep (e : Env) (pool : List Tx) (st : List Nat × List Int) (j : Nat) :
+    Option (List Nat × List Int) :=
+  match pool[j]? with
+  | none => none
+  | some t =>
+    let ops := t.ins.map (·.op)
+    if ops.any (fun op => (spentOps pool st.1).contains op) then none
+    else if !decide ops.Nodup then none
+    else
+      match inputsValue e pool st.1 t.ins with
+      | none => none
+      | some total =>
+        if total < sumOuts t then none
+        else some (st.1 ++ [j], st.2 ++ [(total : Int) - (sumOuts t : Int)])
+
+/-- Connect the selected transactions in block order on top of the chain; the result is the list of
+their real fees. -/
+def connect (e : Env) (pool : List Tx) (sel : List Nat) : Option (List Int) :=
+  (sel.foldlM (connectStep e pool) ([], [])).map (·.2)
 
 def varIntSize (n : Nat) : Nat :=
   if n < 0xfd then 1 else if n ≤ 0xffff then 3 else if n ≤ 0xffffffff then 5 else 9
@@ -89,8 +95,8 @@ def blockValid (e : Env) (pool : List Tx) (tpl : Template) : Bool :=
   && tpl.sel.Nodup
   && (txsOf pool tpl.sel).all (fun t => !isCoinbase t)
   && (txsOf pool tpl.sel).all (fun t => isFinalized t e.nextHeight (consensusClock e))
-  && (match connect e pool tpl.sel [] [] with
-      | some fees => decide (tpl.cbValue ≤ (subsidy e : Int) + fees)
+  && (match connect e pool tpl.sel with
+      | some fees => decide (tpl.cbValue ≤ (subsidy e : Int) + fees.sum)
       | none => false)
   && (txsOf pool tpl.sel).all (·.scriptsOk)
   && decide (sigOpCost e pool tpl ≤ MAX_BLOCK_SIGOPS_COST)
@@ -98,21 +104,10 @@ def blockValid (e : Env) (pool : List Tx) (tpl : Template) : Bool :=
   && (e.segwit || (txsOf pool tpl.sel).all (fun t => !t.hasWitness))
   && (tpl.commitment || (txsOf pool tpl.sel).all (fun t => !t.hasWitness))
 
-/-- The real fee of each selected transaction (`none` if the selection does not connect). -/
-def realFees (e : Env) (pool : List Tx) : List Nat → List Nat → Option (List Int)
-  | [], _ => some []
-  | j :: rest, earlier =>
-    match pool[j]? with
-    | none => none
-    | some t =>
-      match inputsValue e pool earlier t.ins, realFees e pool rest (earlier ++ [j]) with
-      | some total, some fs => some (((total : Int) - sumOuts t) :: fs)
-      | _, _ => none
-
 /-- Reported per-transaction fees are the real ones and entry 0 is minus their sum; the coinbase pays
 exactly subsidy + fees. -/
 def accountingOk (e : Env) (pool : List Tx) (tpl : Template) : Bool :=
-  match realFees e pool tpl.sel [] with
+  match connect e pool tpl.sel with
   | some fs => tpl.fees == (-fs.sum) :: fs && tpl.cbValue == (subsidy e : Int) + fs.sum
   | none => false
 
